@@ -16,7 +16,9 @@
 // last form (or the first error, which stops the load), and the loader's
 // package restored.  Transitions whose operation is a qualified reference under
 // a lexical binding of the same name (ops.go shadowOps) are executed in both
-// modes.
+// modes.  The loaders (load-string, load-bytes, load-file) are additionally
+// called from inside every kind of lexical scope that binds a name the loaded
+// text uses (loadscope.go): the loaded text sees the package binding only.
 package c08
 
 import (
@@ -226,7 +228,7 @@ const stdlibDepth = 4
 // operation included, is at most this long.
 const progDepth = 4
 
-func (e *explorer) kaseOf(mode string, hist []uint8, op int) kase {
+func (e *explorer) kaseOf(mode string, hist []uint16, op int) kase {
 	n := len(hist)
 	if op >= 0 {
 		n++
@@ -284,10 +286,10 @@ func (e *explorer) judge(k kase, res result) {
 	e.r.Violate("c08", res.class, k, res.pred.String()+" and the model's table", res.got+" || "+diffsString(res.diffs), note)
 }
 
-func (e *explorer) transition(hist []uint8, op int, idx int64, alsoProgram bool) {
+func (e *explorer) transition(hist []uint16, op int, idx int64, alsoProgram bool) {
 	if alsoProgram && e.ops[op].prog {
 		// the same history + operation as ONE source text through LoadString
-		h := append(append(make([]uint8, 0, len(hist)+1), hist...), uint8(op))
+		h := append(append(make([]uint16, 0, len(hist)+1), hist...), uint16(op))
 		e.program(h)
 	}
 	k := e.kaseOf("forms", hist, op)
@@ -358,7 +360,7 @@ func (e *explorer) transition(hist []uint8, op int, idx int64, alsoProgram bool)
 			if !ok {
 				continue // not in this tier's alphabet
 			}
-			h := append(append(make([]uint8, 0, len(hist)+1), hist...), uint8(op))
+			h := append(append(make([]uint16, 0, len(hist)+1), hist...), uint16(op))
 			lk := e.kaseOf("forms", h, li)
 			lops := append(append(make([]*opDef, 0, len(ops)+1), ops...), e.ops[li])
 			lres := runForms(lops, lk.Stdlib)
@@ -381,7 +383,7 @@ func (e *explorer) transition(hist []uint8, op int, idx int64, alsoProgram bool)
 	}
 }
 
-func (e *explorer) program(hist []uint8) {
+func (e *explorer) program(hist []uint16) {
 	if len(hist) == 0 {
 		return
 	}
@@ -425,7 +427,7 @@ func run(r *core.Run) {
 	for i, o := range ops {
 		e.opIndex[o.Name] = i
 	}
-	if len(ops) > 255 {
+	if len(ops) > 65535 {
 		r.Violate("c08", "harness-error", nil, "alphabet fits the history encoding", fmt.Sprint(len(ops)), "")
 		return
 	}
@@ -467,6 +469,18 @@ func run(r *core.Run) {
 	r.Bound("later_operations", laterOps)
 	r.Bound("later_operations_after_a_rebinding_shortcut", importOps)
 	r.Bound("later_operations_up_to_depth", laterDepth+1)
+	r.Bound("load_in_scope_scope_kinds", loadScopes)
+	r.Bound("load_in_scope_entry_points", loadEntries)
+	r.Bound("load_in_scope_loaded_texts", loadTexts)
+	r.Bound("load_in_scope_product", "quick: every (scope, text) for load-string + every (entry point, text) under let + every (scope, entry point) for read, without the text set; thorough: the whole product (macro parameter: read only); each a leaf operation on every state reached by <= 2 operations")
+	r.Bound("load_in_scope_later_operations_after_a_loaded_defun", loadScopeLater)
+	nls := 0
+	for _, o := range ops {
+		if strings.HasPrefix(o.Name, "load-in-scope:") {
+			nls++
+		}
+	}
+	r.Bound("load_in_scope_operations_in_this_tier", nls)
 	limited := map[string]int{}
 	minLimited := map[string]int{}
 	for _, o := range ops {
@@ -500,7 +514,9 @@ func run(r *core.Run) {
 	r.Rule("a transition (canonical pre-state, operation) is non-trivial when the model's evaluation of the operation exercised a cross-package mechanism: " +
 		"a function body ran in a package other than the caller's, a lexical binding shadowed a package binding, an unqualified name failed although another package binds it, " +
 		"a qualified reference crossed packages or reached an unexported binding, a copied binding differs from its source (snapshot), a load restored the package, " +
-		"use-package copied a binding, a macro expansion resolved at the call site, or a definition landed outside the top-level current package")
+		"use-package copied a binding, a macro expansion resolved at the call site, a definition landed outside the top-level current package, " +
+		"or an unqualified name in a loaded text went to the current package although the lexical scope the loader was called from binds it. " +
+		"Load-in-scope family: load-string / load-bytes / load-file called from inside every kind of lexical scope that binds a (let, let*, lambda parameter, dotimes, flet, labels, closure, parameter of a function made in another package, of a named function, of a macro) with a loaded text that reads a, set!s it, defines or returns a function reading it, loads a further text reading it, or does so after its own in-package: the loaded text sees the package binding, the scope keeps its own")
 	r.Assume("operations are evaluated one top-level form at a time with LEnv.Eval in the root environment (what the REPL does), so that in-package persists between operations; LEnv.LoadString restores the package and is checked separately (program mode with the production reader and the standard library: one load per expanded state, and one load per transition for every shadowed-qualified-reference operation while the history is at most 4 operations long)")
 	r.Assume("a qualified target (set 'p:a v) binds a in package p: docs/lang.md calls a qualified symbol 'another way to spell a name'")
 	r.Assume("set! only mutates an existing lexical or current-package binding and signals an error otherwise (docstring of set, error text of set!); the VALUE of set!, defun, defmacro is not specified and only its error/value class is compared")
@@ -510,9 +526,10 @@ func run(r *core.Run) {
 	r.Assume("after any call returns or fails the package that was current before it is current again; ignore-errors answers nil for an absorbed error, handler-bind with the catch-all clause answers its handler's value (docs of both operators)")
 	r.Assume("an import (use-package, or the creation of a package over the language package) copies the values current at that moment, however they came to be current: set, set! at top level or inside a function of the exporting package, qualified set, defun/defmacro redefinition")
 	r.Assume("in-package inside a FUNCTION body, set! on a qualified name, rebinding names of the language package, and exporting names of the language package are outside the alphabet (the statement does not speak about them)")
+	r.Assume("a source given to load-string / load-bytes / load-file is a separate program text ('Parses and evaluates source-code as ELPS source', 'Loads and evaluates the ELPS source file': the builtins' docstrings): lexically it stands inside nothing, so an unqualified name in it has no lexical binding to resolve to and goes to the current package; the comment in the three builtins says the same ('the loaded code does not share the current lexical environment')")
 	r.Assume("canonical state = current package + for every model package its export list and every non-base binding (integers by value; functions by kind, defining package, parameter list, body text and captured lexical bindings). Function identity (which bindings share one function object) is checked against the model in every state but is not part of the key: two functions with equal descriptions are observationally equal for every operation of the alphabet")
 
-	type fstate struct{ hist []uint8 }
+	type fstate struct{ hist []uint16 }
 	frontier := []fstate{{}}
 	seen := map[hkey]struct{}{hashKey(newState().key()): {}}
 	levels := []map[string]int64{}
@@ -552,9 +569,9 @@ func run(r *core.Run) {
 			}
 			seen[c.key] = struct{}{}
 			i, j := c.idx/nsub, int(c.idx%nsub)
-			h := make([]uint8, len(frontier[i].hist)+1)
+			h := make([]uint16, len(frontier[i].hist)+1)
 			copy(h, frontier[i].hist)
-			h[len(h)-1] = uint8(sub[j])
+			h[len(h)-1] = uint16(sub[j])
 			next = append(next, fstate{hist: h})
 		}
 		levels = append(levels, map[string]int64{"depth": int64(d), "alphabet": nsub, "expanded_states": int64(len(frontier)), "transitions": done, "new_states": int64(len(next)), "complete": 1})
